@@ -127,7 +127,6 @@ ObsInit ==
     chans |-> EmptyFn,      \* channel cookie -> [snd, rcv : [st, owner], sc, rc : U32]
     lsts |-> EmptyFn,       \* listener cookie -> [owner, filters, scope]
     sdi |-> FALSE, sdb |-> FALSE, stopped |-> FALSE,
-    steps |-> 0,
     inp |-> NoInp, outs |-> <<>>, rems |-> <<>> ]
 
 Bad(S, p, w) == IF S.ok THEN [S EXCEPT !.ok = FALSE, !.prop = p, !.why = w] ELSE S
@@ -712,7 +711,7 @@ Judge(S, st) ==
                       THEN T4 ELSE Bad(T4, "C09", "broker shutdown did not send exactly one shutdown message to each connection"))
               ELSE T4
       T6 == IF T5.ok THEN DumpCheck(T5, st) ELSE T5
-  IN [T6 EXCEPT !.inp = NoInp, !.outs = <<>>, !.rems = <<>>, !.steps = @ + 1]
+  IN [T6 EXCEPT !.inp = NoInp, !.outs = <<>>, !.rems = <<>>]
 
 \* ---------------------------------------------------------------------------------------------
 \* The fold
